@@ -516,6 +516,77 @@ pub fn run(tier: Tier) -> i32 {
     acc.transitions += sweep_steps;
     acc.traces += sweep_steps;
     acc.count("argument_sweep_steps", sweep_steps);
+    // ---- (e) wide groups: a high digit at position P (or none), a low group of 1..=15 digits (three fillings), then
+    // shift(p) for every p in 0..=16 and put / fput / push of a 10- and a 13-digit string: groups wider than any
+    // machine word or scratch buffer
+    let mut wide_steps = 0u64;
+    {
+        let mut wops: Vec<Op> = vec![];
+        let highs: Vec<Option<usize>> = std::iter::once(None).chain((13..=32usize).map(Some)).collect();
+        for h in highs.iter().flatten() {
+            wops.push(Op::At(b'1', *h));
+        }
+        let n_high = wops.len();
+        let mut lows: Vec<&'static [u8]> = vec![];
+        for len in 1..=15usize {
+            for filling in [&"123456789123456"[..len], &"999999999999999"[..len], &"100000000000000"[..len]] {
+                let st: &'static str = Box::leak(filling.to_string().into_boxed_str());
+                lows.push(st.as_bytes());
+            }
+        }
+        for d in &lows {
+            wops.push(Op::Put(d));
+        }
+        let n_low = lows.len();
+        let first_probe = wops.len();
+        for p in 0..=16usize {
+            wops.push(Op::Shift(p));
+        }
+        for d in [&b"1234567891"[..], b"1234567891234"] {
+            wops.push(Op::Put(d));
+            wops.push(Op::Fput(d));
+            wops.push(Op::Push(d));
+        }
+        let mut cases: Vec<Vec<u8>> = vec![];
+        for hi in 0..=n_high {
+            for lo in 0..n_low {
+                let mut path: Vec<u8> = vec![];
+                if hi > 0 {
+                    path.push((hi - 1) as u8);
+                }
+                path.push((n_high + lo) as u8);
+                cases.push(path);
+            }
+        }
+        let wide_results: Vec<Vec<(Vec<u8>, usize, Vec<(String, String, String)>)>> = cases
+            .par_iter()
+            .map(|path| {
+                let mut out = vec![];
+                let Ok((b, frozen)) = guard(|| replay_path(&wops, path)) else { return out };
+                let fp = obs(&b, frozen);
+                for oi in first_probe..wops.len() {
+                    let r = step(&wops, &fp, path, oi);
+                    if !r.viols.is_empty() {
+                        out.push((path.clone(), oi, r.viols));
+                    }
+                }
+                out
+            })
+            .collect();
+        wide_steps += (cases.len() * (wops.len() - first_probe)) as u64;
+        for part in wide_results {
+            for (path, oi, viols) in part {
+                for (clause, expected, observed) in viols {
+                    let mut names: Vec<String> = path.iter().map(|&i| wops[i as usize].name()).collect();
+                    names.push(wops[oi].name());
+                    ctx.report(&mut acc, Violation { lang: "-".into(), entry: "digit_ops".into(), input: names.join("; "), threshold: None, clause, expected, observed });
+                }
+            }
+        }
+    }
+    acc.transitions += wide_steps;
+    acc.traces += wide_steps;
+    acc.count("wide_group_steps", wide_steps);
     chain_steps += (starts.len() * ops.len() * CHAIN) as u64;
     acc.transitions += chain_steps;
     acc.traces += chain_steps;
@@ -537,6 +608,7 @@ pub fn run(tier: Tier) -> i32 {
         "successors_beyond_length_bound": dropped_by_len,
         "queries_per_state": 5 + 10 + 4 + 36 + 1,
         "extra": "every state within 3 operations is reset and compared operation by operation with a new builder; from every state within 2 operations each operation is repeated 24 times",
+        "wide_groups": "a high digit at position 13..=32 (or none) x a low group of 1..=15 digits (3 fillings) x {shift(0..=16), put / fput / push of a 10- and a 13-digit string}",
         "argument_sweep": "from every state within 2 operations: put / fput / push of every digit string of 1..=3 digits (leading zeros included), put_digit_at of every digit at every position 0..=9, shift(0..=12)",
     });
     ctx.finish(acc, cov, vec![
@@ -548,14 +620,37 @@ pub fn run(tier: Tier) -> i32 {
 
 /// Re-execute an op list given by names (replay support).
 pub fn replay(input: &str) -> String {
-    let mut ops = alphabet();
-    ops.extend(sweep_alphabet());
+    fn parse(name: &str) -> Option<Op> {
+        let leak = |x: &str| -> &'static [u8] { Box::leak(x.to_string().into_boxed_str()).as_bytes() };
+        let inner = |pre: &str| name.strip_prefix(pre).and_then(|r| r.strip_suffix(")"));
+        if let Some(a) = inner("put(\"").and_then(|r| r.strip_suffix('"')) {
+            return Some(Op::Put(leak(a)));
+        }
+        if let Some(a) = inner("fput(\"").and_then(|r| r.strip_suffix('"')) {
+            return Some(Op::Fput(leak(a)));
+        }
+        if let Some(a) = inner("push(\"").and_then(|r| r.strip_suffix('"')) {
+            return Some(Op::Push(leak(a)));
+        }
+        if let Some(a) = inner("put_digit_at('") {
+            let (d, p) = a.split_once("',")?;
+            return Some(Op::At(*d.as_bytes().first()?, p.parse().ok()?));
+        }
+        if let Some(a) = inner("shift(") {
+            return Some(Op::Shift(a.parse().ok()?));
+        }
+        match name {
+            "freeze()" => Some(Op::Freeze),
+            "reset()" => Some(Op::Reset),
+            _ => None,
+        }
+    }
     let mut b = DigitString::new();
     let mut log = vec![];
     for name in input.split("; ") {
-        match ops.iter().find(|o| o.name() == name) {
+        match parse(name) {
             Some(op) => {
-                let r = guard(|| apply(&mut b, op));
+                let r = guard(|| apply(&mut b, &op));
                 log.push(format!("{name} -> {:?} => {:?}", r, guard(|| b.to_string())));
             }
             None => log.push(format!("{name}: unknown op")),
